@@ -5,8 +5,9 @@ Mirrored Go code (internal/target/queue):
 * `timewheel.go`: `TimeWheel.Add`, `TimeWheel.Close`, `TimeWheel.tick`
 * `queue.go`: `Queue.dispatch` (the goroutine it starts, its deferred semaphore release /
   `deliveryWg.Done` / panic containment with `discardBroken`), the retry scheduling at the end of
-  `tryDelivery` (`wheel.Add(nextTryTime, …)`) or the terminal `removeFromDisk`, `Queue.Close`
-  (`wheel.Close(); deliveryWg.Wait()`).
+  `tryDelivery` (`wheel.Add(nextTryTime, …)`) or the terminal `removeFromDisk`, the early `return`
+  when `openMessage` fails (`acquireBad`; what the spool looks like is an oracle: `Who.tickBad`),
+  `Queue.Close` (`wheel.Close(); deliveryWg.Wait()`).
 
 Every synchronisation operation of those functions is one step of one goroutine:
 atomic load/store of `stopped`, `slotsLock.Lock` (may block), the critical section up to and
@@ -31,12 +32,16 @@ deriving DecidableEq, Repr
 
 /-- One `TimeSlot` in the wheel.  `req` identifies the `Add` call that created it, `msg` the spool
 entry it belongs to, `budget` how many further retries the message may still schedule
-(`max_tries` minus attempts so far; payload only, never inspected by the wheel). -/
+(`max_tries` minus attempts so far; payload only, never inspected by the wheel).  `mem`: the
+`queueSlot` carries the message itself (`queueDelivery.Commit`: `Meta`/`Hdr`/`Body` set), so
+`Queue.dispatch` does not call `openMessage`; entries added by `readDiskQueue` and retries carry
+only the id and the message is re-read from the spool when they are dispatched. -/
 structure Slot where
   req : Nat
   msg : Nat
   time : Nat
   budget : Nat
+  mem : Bool
 deriving DecidableEq, Repr
 
 /-- Who runs `Add`: a producer (`queueDelivery.Commit` / `readDiskQueue`, the panic escapes to the
@@ -46,6 +51,8 @@ deriving DecidableEq, Repr
 
 inductive Pc
   | acquire        -- q.deliverySemaphore <- struct{}{}
+  | acquireBad     -- the same, and the `openMessage` that follows it is going to fail (meta-data
+                   -- missing / unreadable / undecodable at that moment): `return` → deferred function
   | deliver        -- openMessage + tryDelivery up to the decision: terminal or retry
   | check          -- Add: atomic.LoadUint32(&tw.stopped)
   | lock           -- Add: tw.slotsLock.Lock()
@@ -115,11 +122,14 @@ deriving DecidableEq, Repr
 /-- Scheduler choices.  `thr i c`: goroutine `i` takes its next step (`c` matters only at `deliver`:
 `0` = terminal outcome, `d+1` = temporary failure, retry after `d`).  `tickTimer`, `tickUpd i`,
 `tickStop`: the `select` alternative the tick goroutine takes (`tickUpd i` is the rendezvous with
-goroutine `i` blocked in `Add`'s send, `tickStop` the one with `Close`).  `clock d`: time passes. -/
+goroutine `i` blocked in `Add`'s send, `tickStop` the one with `Close`).  `clock d`: time passes.  `tickBad`: like `tick` at the hand-over
+of an entry to `Queue.dispatch`, with the oracle answer "`openMessage` of this message fails". -/
 inductive Who
   | thr (i : Nat) (choice : Nat)
   | closer
   | tick
+  | tickBad      -- the tick goroutine's `dispatch` step of an entry whose message is not in memory,
+                 -- in an environment where the spool entry cannot be opened until the attempt tried
   | tickTimer
   | tickUpd (i : Nat)
   | tickStop
@@ -156,12 +166,18 @@ def stepThr (v : Variant) (s : St) (i choice : Nat) : Option St :=
       if s.semHeld < s.semCap then
         some { s with semHeld := s.semHeld + 1, thr := s.thr.set i { t with pc := .deliver } }
       else none
+    | .acquireBad =>
+      -- semaphore taken, `openMessage` fails, "read message" is logged, `return`: the deferred
+      -- function (registered right after the semaphore was taken) runs next
+      if s.semHeld < s.semCap then
+        some { s with semHeld := s.semHeld + 1, thr := s.thr.set i { t with pc := .release } }
+      else none
     | .deliver =>
       match choice with
       | 0 => some { s with removed := t.slot.msg :: s.removed, thr := s.thr.set i { t with pc := .release } }
       | d + 1 =>
         if 0 < t.slot.budget then
-          let retry : Slot := { req := s.nextReq, msg := t.slot.msg, time := s.now + d, budget := t.slot.budget - 1 }
+          let retry : Slot := { req := s.nextReq, msg := t.slot.msg, time := s.now + d, budget := t.slot.budget - 1, mem := false }
           some { s with nextReq := s.nextReq + 1, thr := s.thr.set i { t with slot := retry, pc := .check } }
         else
           -- max_tries reached: the temporary failure is final
@@ -225,6 +241,16 @@ def stepTick (s : St) : Option St :=
     | _ => none
   | .exited => none
 
+/-- `tw.dispatch(cur)` for an entry that has to be re-read from the spool, which will fail. -/
+def stepTickBad (s : St) : Option St :=
+  match s.tick with
+  | .dispatch cur =>
+    if cur.mem then none
+    else
+      some { s with wg := s.wg + 1, thr := s.thr ++ [{ kind := .attempt, slot := cur, pc := .acquireBad }],
+                    dispatched := s.dispatched ++ [(cur, s.now)], tick := .top }
+  | _ => none
+
 def stepTickTimer (s : St) : Option St :=
   match s.tick with
   | .waitTimer cur dl => if dl ≤ s.now then some { s with tick := .rmLock cur } else none
@@ -266,6 +292,7 @@ def step (v : Variant) (s : St) : Who → Option St
   | .thr i c => stepThr v s i c
   | .closer => stepCloser s
   | .tick => stepTick s
+  | .tickBad => stepTickBad s
   | .tickTimer => stepTickTimer s
   | .tickUpd i => stepTickUpd s i
   | .tickStop => stepTickStop s
@@ -277,11 +304,12 @@ def run (v : Variant) (s : St) : List Who → St
   | w :: ws => run v ((step v s w).getD s) ws
 
 /-- Producers: `(time, budget)` of the entry each one adds; message and request ids are the
-positions (`k`, `k+1`, …). -/
+positions (`k`, `k+1`, …).  Time `0` is `queueDelivery.Commit` (`Add(time.Time{}, …)` with the message
+in memory), a positive time is `readDiskQueue` (id only). -/
 def mkProducers (k : Nat) : List (Nat × Nat) → List Thread
   | [] => []
   | (t, b) :: rest =>
-    { kind := .producer, slot := { req := k, msg := k, time := t, budget := b }, pc := .check }
+    { kind := .producer, slot := { req := k, msg := k, time := t, budget := b, mem := t == 0 }, pc := .check }
       :: mkProducers (k + 1) rest
 
 /-- Freshly started queue: tick goroutine at the top of its loop, `prods` producers about to call
